@@ -744,6 +744,26 @@ KEEP_AGENTS = [
     ('R20-6', 'DIFF', 'R_C20_6.diff', None, ALL, 'closure helper extracted, slice pattern instead of len check + indexing, map/transpose match -> if-let + match: get_limits reads both bounds through one local closure read_bound(name) (attribute looku'),
     ('R20-7', 'DIFF', 'R_C20_7.diff', None, ALL, 'duplicate code replaced by calls to existing methods (delegation), map_err + ? replaced by match with early return: URDFParameters::to_robot no longer repeats the Parameters {..} literal and the Const'),
     ('R20-8', 'DIFF', 'R_C20_8.diff', None, ALL, 'two duplicated nested fns hoisted into one module-level helper, float-literal tuple match -> if/else chain, else-after-return flattened, if/else assignment -> if-expression plus guard: In populate_opw'),
+    ('R02-5', 'DIFF', 'R_C02_5.diff', None, ALL, 'extract closure (de-duplicate four copy-pasted blocks): inverse_intern: the four copy-pasted blocks computing theta4/theta6 for the shoulder/elbow branches 0..3 (deferred-initialised lets plus *_y/*_x'),
+    ('R02-6', 'DIFF', 'R_C02_6.diff', None, ALL, 'index loops -> iterator chains (zip/enumerate/all), extract helper fn, guard clause, TAU for 2.0*PI: inverse_intern: the offset/sign mapping loop now walks sols.iter_mut().zip(theta.iter()); the valid'),
+    ('R02-7', 'DIFF', 'R_C02_7.diff', None, ALL, 'array::from_fn for the sign/offset mapping, sin_cos reuse instead of repeated sin/cos calls, statements re-ordered, early return, bool::then_some: forward(): q1..q6 are produced by std::array::from_fn'),
+    ('R02-8', 'DIFF', 'R_C02_8.diff', None, ALL, 'data carried differently (named scalars -> arrays, from_fn/map, flipped twins generated by a loop), redundant recomputation replaced by existing temporaries: inverse_intern: m[0..4] is built with arra'),
+    ('R05-5', 'DIFF', 'R_C05_5.diff', None, ALL, 'extract helper functions (method + free function), temporaries removed: The sign-corrected, offset-free J5 expression that was written out twice (kinematic_singularity and the singular branch of inver'),
+    ('R05-6', 'DIFF', 'R_C05_6.diff', None, ALL, 'index loops -> iterators (for-in over slice, iter_mut/zip): In inverse_continuing the `for s_idx in 0..ik.len()` scan for the singular candidate iterates `for candidate in &ik` (ik[s_idx] -> candidate'),
+    ('R05-7', 'DIFF', 'R_C05_7.diff', None, ALL, 'equivalent library calls / constants (TAU, bool::then_some, array.iter().any), while -> if, nested fn inlined into a for loop: Rewrote the angle helpers behind the singularity detection: kinematic_sin'),
+    ('R05-8', 'DIFF', 'R_C05_8.diff', None, ALL, 'expression-oriented rewrite: deferred-init locals -> if-expressions and a tuple, array destructuring, temporaries introduced/removed, independent statements re-ordered, `as f64` -> f64::from: In inver'),
+    ('R06-5', 'DIFF', 'R_C06_5.diff', None, ALL, 'if/else -> match, deferred-init let -> if-expression, index loops -> iter_mut().zip(), temporary introduced: Kinematics::inverse dispatches on parameters.dof with a match (5 => inverse_5dof(pose, 0.0)'),
+    ('R06-6', 'DIFF', 'R_C06_6.diff', None, ALL, 'index loops -> iterators (enumerate / all), flag variable -> guard clause with continue, helper function extracted: In inverse_intern_5_dof the validation/normalization loop now iterates sols.iter_mut'),
+    ('R06-7', 'DIFF', 'R_C06_7.diff', None, ALL, 'repeated straight-line code -> closure + array map with destructuring (deferred-init temporaries removed): In inverse_intern_5_dof the four copy-pasted theta4 blocks (theta4_iy/theta4_ix ... atan2) ar'),
+    ('R06-8', 'DIFF', 'R_C06_8.diff', None, ALL, 'mutable fill loops -> array map building rows directly, helper inlined, match -> let-else: In inverse_intern_5_dof the `sols` table is no longer pre-filled with NaN and overwritten by index loops; it '),
+    ('R09-5', 'DIFF', 'R_C09_5.diff', None, ALL, 'extract helper method + temporaries introduced/removed: src/tool.rs: the repeated `tcp * self.tool.inverse()` of the four Tool inverse entry points is extracted into a private Tool::flange_pose, and t'),
+    ('R09-6', 'DIFF', 'R_C09_6.diff', None, ALL, 'loops <-> iterator chains, index -> zip, if-let/else -> Option::map: src/tool.rs Base::forward_with_joint_poses: the `for pose in poses.iter_mut()` loop becomes `[Pose; 6]::map(|pose| self.base * pose'),
+    ('R09-7', 'DIFF', 'R_C09_7.diff', None, ALL, 'match -> guard clause + array indexing; shared helper extracted; temporary introduced: src/tool.rs: LinearAxis::forward replaces the four-arm match that builds the cart translation by an early `if sel'),
+    ('R09-8', 'DIFF', 'R_C09_8.diff', None, ALL, 'equivalent library call (Div / MulAssign operators), struct destructuring, array destructuring instead of index mutation, temporaries removed: src/frame.rs: the four Frame inverse entry points destruc'),
+    ('R11-5', 'DIFF', 'R_C11_5.diff', None, ALL, 'loop -> iterator chain, enumerate+index -> zip, if-let -> Option::map, temporaries and redundant clone() removed: src/kinematics_with_shape.rs: remove_collisions becomes into_iter().filter(!collides).'),
+    ('R11-6', 'DIFF', 'R_C11_6.diff', None, ALL, 'duplicate constructor body replaced by delegation to the sibling constructor, if/else -> match on bool, temporaries inlined, field init shorthand: src/kinematics_with_shape.rs: KinematicsWithShape::ne'),
+    ('R11-7', 'DIFF', 'R_C11_7.diff', None, ALL, 'guard clause / early return, nested if-else -> short-circuit &&, if/else -> bool::then_some, if-let chain with returns -> Option combinators (or_else / unwrap_or_else): src/collisions.rs: CollisionTas'),
+    ('R11-8', 'DIFF', 'R_C11_8.diff', None, ALL, 'extract helper function, temporaries removed, range bound replaces an in-loop condition, iter()+as casts -> into_iter()+usize::from: src/collisions.rs: the repeated forward_with_joint_poses then cast'),
 ]
 KEEP += KEEP_AGENTS
 
